@@ -163,7 +163,7 @@ func (t Time) Add(input Quantity) (Time, error) {
 		return Time{}, err
 	}
 	duration = roundToTimePrecision(timeMap[t.l], duration)
-	return Time{t.time.Add(duration), t.l}, nil
+	return Time{t.wrap(t.time.Add(duration)), t.l}, nil
 }
 
 // Sub returns the result of the time-valued quantity subtracted from t.
@@ -174,7 +174,15 @@ func (t Time) Sub(input Quantity) (Time, error) {
 		return Time{}, err
 	}
 	duration = roundToTimePrecision(timeMap[t.l], duration)
-	return Time{t.time.Add(-duration), t.l}, nil
+	return Time{t.wrap(t.time.Add(-duration)), t.l}, nil
+}
+
+// wrap puts the time of day of result back onto the date t is anchored on, so
+// that a Time that passed midnight still equals (and orders like) the same
+// time of day.
+func (t Time) wrap(result time.Time) time.Time {
+	return time.Date(t.time.Year(), t.time.Month(), t.time.Day(),
+		result.Hour(), result.Minute(), result.Second(), result.Nanosecond(), t.time.Location())
 }
 
 // roundToTimePrecision is used to round down to the highest precision of
